@@ -17,6 +17,7 @@ type Locker interface {
 // ---------------------------------------------------------------- Mutex
 
 type Mutex struct {
+	clk     simrt.Clock
 	locked  bool
 	waiters simrt.WaitList
 }
@@ -30,6 +31,7 @@ func (m *Mutex) Lock() {
 		m.waiters.Park("Mutex.Lock")
 	}
 	m.locked = true
+	simrt.Acquire(&m.clk)
 }
 
 func (m *Mutex) TryLock() bool {
@@ -38,6 +40,7 @@ func (m *Mutex) TryLock() bool {
 		return false
 	}
 	m.locked = true
+	simrt.Acquire(&m.clk)
 	return true
 }
 
@@ -45,6 +48,7 @@ func (m *Mutex) Unlock() {
 	if !m.locked {
 		simrt.Misuse("sync: unlock of unlocked mutex")
 	}
+	simrt.Release(&m.clk)
 	m.locked = false
 	m.waiters.WakeAll()
 	simrt.Point("mutex.unlock", false)
@@ -55,6 +59,7 @@ func (m *Mutex) Unlock() {
 // RWMutex follows the real implementation's writer preference: once a writer
 // waits, new readers block (so recursive read locking can deadlock, as in Go).
 type RWMutex struct {
+	clk            simrt.Clock
 	writer         bool
 	readers        int
 	writersWaiting int
@@ -74,6 +79,7 @@ func (rw *RWMutex) Lock() {
 		rw.writersWaiting--
 	}
 	rw.writer = true
+	simrt.Acquire(&rw.clk)
 }
 
 func (rw *RWMutex) TryLock() bool {
@@ -82,6 +88,7 @@ func (rw *RWMutex) TryLock() bool {
 		return false
 	}
 	rw.writer = true
+	simrt.Acquire(&rw.clk)
 	return true
 }
 
@@ -89,6 +96,7 @@ func (rw *RWMutex) Unlock() {
 	if !rw.writer {
 		simrt.Misuse("sync: Unlock of unlocked RWMutex")
 	}
+	simrt.Release(&rw.clk)
 	rw.writer = false
 	rw.waiters.WakeAll()
 	simrt.Point("rw.unlock", false)
@@ -103,6 +111,7 @@ func (rw *RWMutex) RLock() {
 		rw.waiters.Park("RWMutex.RLock")
 	}
 	rw.readers++
+	simrt.Acquire(&rw.clk)
 }
 
 func (rw *RWMutex) TryRLock() bool {
@@ -111,6 +120,7 @@ func (rw *RWMutex) TryRLock() bool {
 		return false
 	}
 	rw.readers++
+	simrt.Acquire(&rw.clk)
 	return true
 }
 
@@ -118,6 +128,7 @@ func (rw *RWMutex) RUnlock() {
 	if rw.readers <= 0 {
 		simrt.Misuse("sync: RUnlock of unlocked RWMutex")
 	}
+	simrt.Release(&rw.clk)
 	rw.readers--
 	if rw.readers == 0 {
 		rw.waiters.WakeAll()
@@ -135,12 +146,16 @@ func (rw *RWMutex) RLocker() Locker { return (*rlocker)(rw) }
 // ---------------------------------------------------------------- WaitGroup
 
 type WaitGroup struct {
+	clk     simrt.Clock
 	n       int
 	waiters simrt.WaitList
 }
 
 func (wg *WaitGroup) Add(delta int) {
 	simrt.Point("wg.add", true)
+	if delta < 0 {
+		simrt.Release(&wg.clk) // Done happens before the Wait it unblocks
+	}
 	wg.n += delta
 	if wg.n < 0 {
 		simrt.Misuse("sync: negative WaitGroup counter")
@@ -160,6 +175,7 @@ func (wg *WaitGroup) Wait() {
 		}
 		wg.waiters.Park("WaitGroup.Wait")
 	}
+	simrt.Acquire(&wg.clk)
 }
 
 func (wg *WaitGroup) Go(f func()) {
@@ -173,6 +189,7 @@ func (wg *WaitGroup) Go(f func()) {
 // ---------------------------------------------------------------- Once
 
 type Once struct {
+	clk     simrt.Clock
 	done    bool
 	running bool
 	waiters simrt.WaitList
@@ -181,16 +198,19 @@ type Once struct {
 func (o *Once) Do(f func()) {
 	simrt.Point("once.do", true)
 	if o.done {
+		simrt.Acquire(&o.clk)
 		return
 	}
 	for o.running {
 		o.waiters.Park("Once.Do")
 		if o.done {
+			simrt.Acquire(&o.clk)
 			return
 		}
 	}
 	o.running = true
 	defer func() {
+		simrt.Release(&o.clk)
 		o.done = true
 		o.running = false
 		o.waiters.WakeAll()
@@ -222,18 +242,23 @@ func OnceValues[T1, T2 any](f func() (T1, T2)) func() (T1, T2) {
 // Range is then permuted by the simulator's map-order stream like any other
 // map iteration.
 type Map struct {
+	clk  simrt.Clock
 	m    map[any]any
 	keys []any
 }
 
 func (m *Map) Load(key any) (value any, ok bool) {
 	simrt.Point("syncmap.load", false)
+	simrt.Acquire(&m.clk)
+	simrt.Release(&m.clk)
 	value, ok = m.m[key]
 	return
 }
 
 func (m *Map) Store(key, value any) {
 	simrt.Point("syncmap.store", true)
+	simrt.Acquire(&m.clk)
+	simrt.Release(&m.clk)
 	m.store(key, value)
 }
 
@@ -249,12 +274,16 @@ func (m *Map) store(key, value any) {
 
 func (m *Map) Clear() {
 	simrt.Point("syncmap.clear", true)
+	simrt.Acquire(&m.clk)
+	simrt.Release(&m.clk)
 	m.m = nil
 	m.keys = nil
 }
 
 func (m *Map) LoadOrStore(key, value any) (actual any, loaded bool) {
 	simrt.Point("syncmap.loadorstore", true)
+	simrt.Acquire(&m.clk)
+	simrt.Release(&m.clk)
 	if v, ok := m.m[key]; ok {
 		return v, true
 	}
@@ -264,6 +293,8 @@ func (m *Map) LoadOrStore(key, value any) (actual any, loaded bool) {
 
 func (m *Map) LoadAndDelete(key any) (value any, loaded bool) {
 	simrt.Point("syncmap.loadanddelete", true)
+	simrt.Acquire(&m.clk)
+	simrt.Release(&m.clk)
 	value, loaded = m.m[key]
 	if loaded {
 		m.del(key)
@@ -285,6 +316,8 @@ func (m *Map) Delete(key any) { m.LoadAndDelete(key) }
 
 func (m *Map) Swap(key, value any) (previous any, loaded bool) {
 	simrt.Point("syncmap.swap", true)
+	simrt.Acquire(&m.clk)
+	simrt.Release(&m.clk)
 	previous, loaded = m.m[key]
 	m.store(key, value)
 	return
@@ -292,6 +325,8 @@ func (m *Map) Swap(key, value any) (previous any, loaded bool) {
 
 func (m *Map) CompareAndSwap(key, old, new any) bool {
 	simrt.Point("syncmap.cas", true)
+	simrt.Acquire(&m.clk)
+	simrt.Release(&m.clk)
 	if v, ok := m.m[key]; ok && v == old {
 		m.m[key] = new
 		return true
@@ -301,6 +336,8 @@ func (m *Map) CompareAndSwap(key, old, new any) bool {
 
 func (m *Map) CompareAndDelete(key, old any) bool {
 	simrt.Point("syncmap.cad", true)
+	simrt.Acquire(&m.clk)
+	simrt.Release(&m.clk)
 	if v, ok := m.m[key]; ok && v == old {
 		m.del(key)
 		return true
@@ -310,6 +347,8 @@ func (m *Map) CompareAndDelete(key, old any) bool {
 
 func (m *Map) Range(f func(key, value any) bool) {
 	simrt.Point("syncmap.range", false)
+	simrt.Acquire(&m.clk)
+	simrt.Release(&m.clk)
 	keys := append([]any(nil), m.keys...)
 	keys = simrt.PermuteAny(keys, "sync.Map.Range")
 	for _, k := range keys {
@@ -354,6 +393,7 @@ func (p *Pool) Put(x any) {
 // ---------------------------------------------------------------- Cond
 
 type Cond struct {
+	clk     simrt.Clock
 	L       Locker
 	waiters simrt.WaitList
 }
@@ -363,8 +403,13 @@ func NewCond(l Locker) *Cond { return &Cond{L: l} }
 func (c *Cond) Wait() {
 	c.L.Unlock()
 	c.waiters.Park("Cond.Wait")
+	simrt.Acquire(&c.clk)
 	c.L.Lock()
 }
 
-func (c *Cond) Signal()    { simrt.Point("cond.signal", true); c.waiters.WakeOne() }
-func (c *Cond) Broadcast() { simrt.Point("cond.broadcast", true); c.waiters.WakeAll() }
+func (c *Cond) Signal() { simrt.Point("cond.signal", true); simrt.Release(&c.clk); c.waiters.WakeOne() }
+func (c *Cond) Broadcast() {
+	simrt.Point("cond.broadcast", true)
+	simrt.Release(&c.clk)
+	c.waiters.WakeAll()
+}
